@@ -7,7 +7,8 @@ import datetime
 import beanquery
 from beanquery import parser, compiler, query_execute
 from beancount import loader
-from beancount.core import data, inventory, position, convert
+from beancount.core import data, inventory, position, convert, getters
+from beancount.parser import printer
 from beancount.core.compare import hash_entry
 
 from harness.common import Result
@@ -55,7 +56,8 @@ def check_ledger(res, name, src):
                 if [tuple(g) for g in got] != want:
                     res.violation('h14:balances', 'BALANCES returns the per-account sum of [f of] position ordered by account type then name', {'ledger': name, 'statement': stmt}, got[:3], want[:3])
             # JOURNAL
-            for acct in (None, 'Assets', 'bank', 'Expenses:Food', 'Nosuch', 'A.*:C', '^Income'):
+            # (complete account names that are also the prefix of other accounts: the pattern is a regular expression search)
+            for acct in (None, 'Assets', 'bank', 'Expenses:Food', 'Assets:Bank', 'Nosuch', 'A.*:C', '^Income'):
                 stmt = 'JOURNAL' + (f" '{acct}'" if acct else '') + (f' AT {f}' if f else '') + (f' FROM{frm}' if frm else '')
                 res.case((name, stmt))
                 try:
@@ -92,7 +94,14 @@ def check_ledger(res, name, src):
                     (' OPEN ON 2020-01-15 CLOSE ON 2020-02-10', dict(open=D(2020, 1, 15), close=D(2020, 2, 10))),
                     (' CLOSE ON 2020-02-01 CLEAR', dict(close=D(2020, 2, 1), clear=True)), (" flag = '!'", {}),
                     (' month = 2 OPEN ON 2020-01-03', dict(open=D(2020, 1, 3))), (' CLOSE', dict(close=True)), (' CLEAR', dict(clear=True)),
-                    (' year = 2020 OPEN ON 2020-02-01 CLOSE ON 2020-03-01 CLEAR', dict(open=D(2020, 2, 1), close=D(2020, 3, 1), clear=True))]:
+                    (' year = 2020 OPEN ON 2020-02-01 CLOSE ON 2020-03-01 CLEAR', dict(open=D(2020, 2, 1), close=D(2020, 3, 1), clear=True)),
+                    (' CLOSE ON 2020-02-03 CLEAR', dict(close=D(2020, 2, 3), clear=True)), (' CLOSE ON 2020-01-21 CLEAR', dict(close=D(2020, 1, 21), clear=True)),
+                    # has_account: every account a directive names (a pad names two), decided here with Beancount's own getter
+                    (" has_account('Equity:Opening')", dict(_pred=lambda e: any(re.search('Equity:Opening', a) for a in getters.get_entry_accounts(e)))),
+                    (" has_account('Bank')", dict(_pred=lambda e: any(re.search('Bank', a) for a in getters.get_entry_accounts(e)))),
+                    (" has_account('Expenses:Food')", dict(_pred=lambda e: any(re.search('Expenses:Food', a) for a in getters.get_entry_accounts(e))))]:
+        kw = dict(kw)
+        pred = kw.pop('_pred', None)
         stmt = 'PRINT' + (f' FROM{frm}' if frm else '')
         res.case((name, stmt))
         try:
@@ -107,7 +116,10 @@ def check_ledger(res, name, src):
         # reference: the connection's entries table with the qualifiers written in the statement (BeanTable.update / prepare
         # are under T1 contracts in C13), not the table object the compiled statement happens to carry
         table = conn.tables['entries'].update(**{'open': None, 'close': None, 'clear': None, **kw})
-        want_entries = [row.entry for row in table if c_print.where is None or c_print.where(row)]
+        if pred is not None:
+            want_entries = [row.entry for row in table if pred(row.entry)]
+        else:
+            want_entries = [row.entry for row in table if c_print.where is None or c_print.where(row)]
         back, errors, _ = loader.load_string(out.getvalue())
         strip = lambda e: e._replace(meta={k: v for k, v in e.meta.items() if k not in ('filename', 'lineno') and not k.startswith('__')},
                                      **({'postings': [p._replace(meta={k: v for k, v in (p.meta or {}).items() if k not in ('filename', 'lineno') and not k.startswith('__')}) for p in e.postings]} if isinstance(e, data.Transaction) else {}))
@@ -119,9 +131,14 @@ def check_ledger(res, name, src):
         dates_out = [e.date for e in back]
         if [e.date for e in want_entries] != sorted(e.date for e in want_entries) and False:
             pass
-        text_dates = re.findall(r'^(\d{4}-\d{2}-\d{2}) ', out.getvalue(), re.M)
-        if text_dates != [e.date.isoformat() for e in want_entries]:
-            res.violation('h14:print-order', 'PRINT emits the directives in ledger order', {'ledger': name, 'statement': stmt}, text_dates[:5], [e.date.isoformat() for e in want_entries][:5])
+        # the first line of every printed directive (date, keyword or flag, first word) against the first lines of the expected
+        # directives printed one by one: same directives in the same order, also among directives of one day
+        head = lambda text: [tuple(l.split()[:3]) for l in text.splitlines() if re.match(r'\d{4}-\d{2}-\d{2} ', l)]
+        got_heads = head(out.getvalue())
+        want_heads = [head(printer.format_entry(e))[0] for e in want_entries]
+        if got_heads != want_heads:
+            k = next((i for i, (a_, b_) in enumerate(zip(got_heads, want_heads)) if a_ != b_), min(len(got_heads), len(want_heads)))
+            res.violation('h14:print-order', 'PRINT emits the directives in ledger order', {'ledger': name, 'statement': stmt}, got_heads[max(0, k - 1):k + 3], want_heads[max(0, k - 1):k + 3])
 
 
 def run(tier, seed):
